@@ -223,7 +223,8 @@ pub fn poll_task(tb: &mut TaskBox, ctx: &mut ThreadCtx, idx: usize, kind: PollKi
     ctx.cur_cell = Some(tb.cell.clone());
     let waker = noop_waker();
     let mut cx = Context::from_waker(&waker);
-    let out = match (tb.obj.as_mut(), kind) {
+    let obj = tb.obj.as_mut();
+    let polled = std::panic::catch_unwind(std::panic::AssertUnwindSafe(|| match (obj, kind) {
         (Some(TaskObj::Fut(f)), PollKind::Poll) => format!("{:?}", f.as_mut().poll(&mut cx)),
         (Some(TaskObj::Stream(s)), PollKind::PollNext) | (Some(TaskObj::Stream(s)), PollKind::PollNextItem) => {
             format!("{:?}", s.as_mut().poll_next(&mut cx))
@@ -235,6 +236,12 @@ pub fn poll_task(tb: &mut TaskBox, ctx: &mut ThreadCtx, idx: usize, kind: PollKi
             format!("{:?}", s.as_mut().poll_close(&mut cx))
         }
         _ => "mismatch".to_string(),
+    }));
+    let out = match polled {
+        Ok(s) => s,
+        // the caller of a poll whose body panicked catches the panic (and may poll again later)
+        Err(e) if e.is::<ScriptPanic>() => "panicked".to_string(),
+        Err(e) => std::panic::resume_unwind(e),
     };
     tb.cell.get().ctx = std::ptr::null_mut();
     ctx.cur_cell = outer_cell;
